@@ -29,6 +29,8 @@
            C19_pipeline_ax_size  ax_size lin <= pipeline_ax_bound checked   (composition; very loose)  [VIOL class=proved-bound:pipeline]
            C19_x86_compile_size  x86 instructions without COMMENT pseudo-instructions (4th code entry)
                                <= 30 + x86_K * cg_bound_defs lin, when sub_wf_prog lin                 [VIOL class=proved-bound:x86]
+           C19_a64_compile_size, C19_rv_compile_size  likewise (5th / 6th code entry):
+                               <= 28 + a64_K * cg_bound_defs lin, <= rv_K * cg_bound_defs lin          [VIOL class=proved-bound:a64 / rv]
                                (sub_wf_prog lin = false: the precondition, which the linear discipline guarantees, fails
                                 on a real output                                                      [VIOL class=codegen-precondition:sub_wf])
        - PROVED shape of the code-generation bound with the calibrated (not proved) unit cost K = 16 (AArch64; x86-64 incl. comments):
@@ -183,17 +185,25 @@ Definition prog_case (label : string) (k : N) (gs codes vals : list sexp) : verd
           else
           match codes with
           | cx :: ca :: cr :: more =>
-              let x86_proved : option string :=
-                match more with
-                | cxn :: _ =>
+              let proved (arch : string) (bound : N) (c : option sexp) : option string :=
+                match c with
+                | Some cxn =>
                     match getN cxn with
                     | Some n =>
                         if negb (sub_wf_prog pl) then Some "class=codegen-precondition:sub_wf the linearized program has a Substitute with repeated ids"
-                        else if x86_bound pl <? n then Some ("class=proved-bound:x86 instructions=" ++ n_to_string n ++ " bound=" ++ n_to_string (x86_bound pl))
+                        else if bound <? n then Some ("class=proved-bound:" ++ arch ++ " instructions=" ++ n_to_string n ++ " bound=" ++ n_to_string bound)
                         else None
                     | None => None
                     end
-                | [] => None
+                | None => None
+                end in
+              let x86_proved : option string :=
+                match proved "x86" (x86_bound pl) (nth_error more 0) with
+                | Some w => Some w
+                | None => match proved "a64" (a64_bound pl) (nth_error more 1) with
+                          | Some w => Some w
+                          | None => proved "rv" (rv_bound pl) (nth_error more 2)
+                          end
                 end in
               match x86_proved, code_viol "x86" cx, code_viol "a64" ca with
               | Some w, _, _ | None, Some w, _ | None, None, Some w => VViol (w ++ info)
